@@ -315,7 +315,7 @@ func (c *Certificate) Verify(opts VerifyOptions) (chains [][]*Certificate, err e
 	if opts.Roots.contains(c) {
 		candidateChains = append(candidateChains, []*Certificate{c})
 	} else {
-		if candidateChains, err = c.buildChains(make(map[int][][]*Certificate), []*Certificate{c}, &opts); err != nil {
+		if candidateChains, err = c.buildChains([]*Certificate{c}, new(int), &opts); err != nil {
 			return nil, err
 		}
 	}
@@ -353,8 +353,19 @@ func appendToFreshChain(chain []*Certificate, cert *Certificate) []*Certificate 
 	return n
 }
 
-func (c *Certificate) buildChains(cache map[int][][]*Certificate, currentChain []*Certificate, opts *VerifyOptions) (chains [][]*Certificate, err error) {
-	possibleRoots, failedRoot, rootErr := opts.Roots.findVerifiedParents(c)
+// maxChainSignatureChecks is the maximum number of CheckSignatureFrom calls
+// that an invocation of buildChains will (transitively) make. Most chains are
+// less than 15 certificates long, so this leaves space for multiple chains and
+// for failed checks due to different intermediates having the same Subject.
+const maxChainSignatureChecks = 100
+
+// buildChains returns the chains from c to a root that extend currentChain,
+// whose last element is c. The chains above an intermediate depend on
+// currentChain (path length constraints, certificates already used), so
+// nothing is remembered between calls; sigChecks counts the signature checks
+// made so far and bounds the search instead.
+func (c *Certificate) buildChains(currentChain []*Certificate, sigChecks *int, opts *VerifyOptions) (chains [][]*Certificate, err error) {
+	possibleRoots, failedRoot, rootErr := opts.Roots.findVerifiedParents(c, sigChecks)
 nextRoot:
 	for _, rootNum := range possibleRoots {
 		root := opts.Roots.certs[rootNum]
@@ -372,7 +383,7 @@ nextRoot:
 		chains = append(chains, appendToFreshChain(currentChain, root))
 	}
 
-	possibleIntermediates, failedIntermediate, intermediateErr := opts.Intermediates.findVerifiedParents(c)
+	possibleIntermediates, failedIntermediate, intermediateErr := opts.Intermediates.findVerifiedParents(c, sigChecks)
 nextIntermediate:
 	for _, intermediateNum := range possibleIntermediates {
 		intermediate := opts.Intermediates.certs[intermediateNum]
@@ -386,16 +397,17 @@ nextIntermediate:
 			continue
 		}
 		var childChains [][]*Certificate
-		childChains, ok := cache[intermediateNum]
-		if !ok {
-			childChains, err = intermediate.buildChains(cache, appendToFreshChain(currentChain, intermediate), opts)
-			cache[intermediateNum] = childChains
-		}
+		childChains, err = intermediate.buildChains(appendToFreshChain(currentChain, intermediate), sigChecks, opts)
 		chains = append(chains, childChains...)
 	}
 
 	if len(chains) > 0 {
 		err = nil
+	}
+
+	if len(chains) == 0 && *sigChecks > maxChainSignatureChecks {
+		err = errors.New("x509: signature check attempts limit reached while verifying certificate chain")
+		return
 	}
 
 	if len(chains) == 0 && err == nil {
